@@ -242,6 +242,10 @@ func (c *c06) check(desc string, ic issueCtx, tr *world.TokenResponse) {
 		if _, has := p[claim]; has {
 			if !slices.Contains(ic.scopes, scope) {
 				c.viol("user-claims", site+"/scope", "%s: claim %q without scope %q (granted %v)", desc, claim, scope, ic.scopes)
+			} else if cl := c.w.Store.Clients[ic.client]; cl != nil && slices.Contains(cl.DropFromID, scope) && ic.flow != "exchange" && ic.flow != "exchange-id" {
+				// (ID tokens issued by a token exchange get their claims from the storage's SetUserinfoFromTokenExchangeRequest,
+				// which is handed the request, not a scope list: the client's hook has no part in that path - not judged)
+				c.viol("user-claims", site+"/excluded-by-client", "%s: claim %q although the client excludes scope %q from its ID tokens (RestrictAdditionalIdTokenScopes)", desc, claim, scope)
 			} else if !allowUser {
 				c.viol("user-claims", site+"/assertion", "%s: claim %q in an id_token that accompanies an access token although the client has no userinfo assertion", desc, claim)
 			}
